@@ -60,6 +60,12 @@ func emitObs(id string, c rtgen.CaseT, ask []string, o rtgen.ObsT, st *hx.Stats)
 		if c.Req.Cancelled {
 			st.Count("request_context_cancelled")
 		}
+		for _, q := range c.Prev {
+			if q.PanicIn {
+				st.Count("request_after_a_failing_handler")
+				break
+			}
+		}
 		if len(c.Burst) > 0 {
 			st.Count("request_in_concurrent_burst")
 		}
@@ -191,6 +197,11 @@ func main() {
 				if r.Chance(1, 5) {
 					reqs = []rtgen.ReqT{rtgen.GenReq(r, script)}
 				}
+				for k := range reqs {
+					if r.Chance(1, 8) { // the handler that answers this one fails after answering
+						reqs[k].PanicIn = true
+					}
+				}
 				sess := rtgen.NewSession(base, ask)
 				for k, q := range reqs {
 					if j >= perScript || i >= a.N {
@@ -246,6 +257,7 @@ func main() {
 		}
 		st.Emit(w)
 	case "replay":
+		rtgen.BurstTries = 5
 		for _, line := range hx.StdinLines() {
 			var c rtgen.CaseT
 			id, err := hx.CaseFromComment(line, &c)
